@@ -192,13 +192,13 @@ class HTTP(BaseComponent):
             if res.chunked:
                 self.fire(write(sock, b'0\r\n\r\n'))
 
-            if not res.stream:
-                if res.close:
-                    self.fire(close(sock))
-                # Delete the request/response objects if present
-                if sock in self._clients:
-                    del self._clients[sock]
-                res.done = True
+            # (a response flagged as stream that has no body ends here too)
+            if res.close:
+                self.fire(close(sock))
+            # Delete the request/response objects if present
+            if sock in self._clients:
+                del self._clients[sock]
+            res.done = True
 
     @handler('disconnect')
     def _on_disconnect(self, sock):
